@@ -1,0 +1,12 @@
+//go:build verif
+
+package ast
+
+// Contracts for the deductive verifier in /verif (comment-only file, build tag verif).
+
+//@ func Input.ByteSlice
+//@   requires i != nil
+//@   requires reference.Start <= reference.End && reference.End <= len(i.RawBytes)
+//@   ensures len(result) == reference.End - reference.Start
+//@   pure
+//@   safety nil
